@@ -50,12 +50,17 @@ var classHashes = []uint64{300, 301, 302, 303}
 // genValidDiff draws a diff that is well-formed on top of st and advances st. classes receives
 // the definitions of the cairo0 classes it declares. casm says whether sierra declarations
 // (compiled class hashes) may be drawn.
-func genValidDiff(r *lib.RNG, st *abs, size int, classes *[][2]uint64, casm bool) DiffSpec {
+//
+// fresh collects the addresses deployed so far in the block the diff belongs to: their class is
+// not replaced again within that block. (A block diff listing one address under both
+// deployed_contracts and replaced_classes is not something the canonical state is specified for:
+// juno's two state backends disagree on it — see notes/C20.md — so it cannot serve as reference.)
+func genValidDiff(r *lib.RNG, st *abs, size int, classes *[][2]uint64, fresh map[uint64]bool) DiffSpec {
 	var d DiffSpec
 	if r.Chance(1, 8) {
 		return d
 	}
-	deployedNow := map[uint64]bool{}
+	deployedNow := fresh
 	for i := r.Intn(size + 1); i > 0; i-- {
 		a := lib.Pick(r, uniAddrs)
 		if _, ok := st.class[a]; ok {
@@ -109,7 +114,6 @@ func genValidDiff(r *lib.RNG, st *abs, size int, classes *[][2]uint64, casm bool
 			*classes = append(*classes, [2]uint64{h, 1000 + h + uint64(r.Intn(3))*10})
 		}
 	}
-	_ = casm
 	return d
 }
 
@@ -156,7 +160,7 @@ func genBase(r *lib.RNG, n int) ([]BaseBlock, []*abs) {
 	var states []*abs
 	for i := 0; i < n; i++ {
 		var b BaseBlock
-		b.Diff = genValidDiff(r, st, 2, &b.Classes, false)
+		b.Diff = genValidDiff(r, st, 2, &b.Classes, map[uint64]bool{})
 		if i == 0 && len(b.Diff.D) == 0 {
 			b.Diff.D = append(b.Diff.D, [2]uint64{100, 300})
 			st.class[100] = 300
@@ -416,20 +420,22 @@ func genOverlay(r *lib.RNG, newState bool) *Scenario {
 		var classes [][2]uint64
 		ident := fmt.Sprintf("o%d", j)
 		before := st.clone()
-		txs := genTxs(r, r.Intn(4), seq, func() DiffSpec { return genValidDiff(r, st, 2, &classes, false) })
+		fresh := map[uint64]bool{}
+		txs := genTxs(r, r.Intn(4), seq, func() DiffSpec { return genValidDiff(r, st, 2, &classes, fresh) })
 		scn.Ops = append(scn.Ops, OpSpec{Op: "apply", U: &UpdateSpec{Kind: "B", Ident: ident, VerOk: true, Txs: txs},
 			Num: num, Oldest: head + 1, Classes: classes})
 		ntx := len(txs)
 		switch r.Intn(5) {
 		case 0, 1: // appended transactions
 			var c2 [][2]uint64
-			more := genTxs(r, 1+r.Intn(2), seq, func() DiffSpec { return genValidDiff(r, st, 2, &c2, false) })
+			more := genTxs(r, 1+r.Intn(2), seq, func() DiffSpec { return genValidDiff(r, st, 2, &c2, fresh) })
 			scn.Ops = append(scn.Ops, OpSpec{Op: "apply", U: &UpdateSpec{Kind: "D", Ident: ident, Txs: more},
 				Num: num, BaseTx: uint64(ntx), Oldest: head + 1, Classes: c2})
 		case 2: // the same round again, richer: replaces the slot
 			st = before
 			classes = nil
-			txs2 := genTxs(r, ntx+1, seq, func() DiffSpec { return genValidDiff(r, st, 2, &classes, false) })
+			fresh = map[uint64]bool{}
+			txs2 := genTxs(r, ntx+1, seq, func() DiffSpec { return genValidDiff(r, st, 2, &classes, fresh) })
 			scn.Ops = append(scn.Ops, OpSpec{Op: "apply", U: &UpdateSpec{Kind: "B", Ident: ident, VerOk: true, Txs: txs2},
 				Num: num, Oldest: head + 1, Classes: classes})
 		}
